@@ -26,6 +26,8 @@ type Result struct {
 	Files   map[string][]byte // original path -> rewritten source
 	Globals []string
 	Points  int // inserted hook calls
+	// Uncontrolled counts go statements and channel operations: concurrency the cooperative scheduler does not control
+	Uncontrolled int
 }
 
 // Package instruments the package in dir (import path pkgPath). resolve maps a
@@ -117,6 +119,19 @@ func Package(dir, pkgPath string, resolve func(string) string) (*Result, error) 
 		res.Files[paths[i]] = out
 	}
 	res.Points = in.points
+	for _, f := range files {
+		ast.Inspect(f, func(n ast.Node) bool {
+			switch x := n.(type) {
+			case *ast.GoStmt, *ast.SendStmt, *ast.SelectStmt:
+				res.Uncontrolled++
+			case *ast.UnaryExpr:
+				if x.Op == token.ARROW {
+					res.Uncontrolled++
+				}
+			}
+			return true
+		})
+	}
 	return res, nil
 }
 
